@@ -546,6 +546,9 @@ def with_relatives(rng, v):
             opts.append(("Qraw", f"V64:{n}"))
             opts.append(("Qraw", f"V0:{n}"))
         return ("raw", rng.choice(opts)[1], v)
+    if k == "U" and rng.random() < 0.5:
+        # the same value as Go `uint` (64 bits wide here) instead of uint64
+        return ("raw", f"V0:{v[1]}", v)
     if k == "D" and rng.random() < 0.5:
         # a float32 holding some (mostly non-dyadic) value: its normal form is the exact widening to float64
         import struct
